@@ -1,7 +1,12 @@
 """Helpers imported by harness modules (both under CrossHair and in plain replay runs)."""
 import contextlib
 import json
+import logging
 import os
+
+# Logging is an environment stub in every harness process: LogRecord creation calls time.time(),
+# which CrossHair replaces by a symbolic float (an unbounded choice point on every logger call).
+logging.disable(logging.CRITICAL)
 
 PARAMS = json.loads(os.environ.get('VERIF_PARAMS', '{}'))
 TWIN = os.environ.get('VERIF_TWIN') == '1'
